@@ -95,7 +95,6 @@ def addop(operator, prec, fun, numargs=None):
 a = addop
 a(UMinus, 10, lambda x: -x)
 a(UPlus, 10, lambda x: x)
-a("^", 10, math.pow, 2)
 a("not", 9, lambda x: int(not bool(x)))
 a("abs", 9, abs, 1)
 a("sin", 9, math.sin, 1)
@@ -109,6 +108,7 @@ a("ln", 9, math.log, 1)
 a("ceil", 9, lambda x: int(math.ceil(x)))
 a("floor", 9, lambda x: int(math.floor(x)))
 a("trunc", 9, int, 1)
+a("^", 8.5, math.pow, 2)  # binds less tightly than unary minus and the functions, more tightly than * /
 
 a("e", 11, lambda x, y: x * math.pow(10, y))
 a("E", 11, lambda x, y: x * math.pow(10, y))
